@@ -186,7 +186,12 @@ def check(ctx):
         ctx.ob('C02.R3.revocation', '%s<-%s' % (w[0], w[1]), cnt == 1,
                'rights %s of %s are revoked exactly once when: %s (found %d)' % (w[0][1], w[0][0], w[1], cnt),
                site=do.loc(rev[0][0]))
-    extra = [g for g in got if g not in want_rev]
+    for n, m, g in rev:
+        if g and g[0] == 'blocked-by':
+            ctx.ob('C02.R3.independent', '%s' % (m,), False,
+                   'revocation of %s is skipped whenever `%s` holds: the classes are independent (a rook capturing a rook on its home '
+                   'square revokes two rights)' % (m, g[1]), site=do.loc(n))
+    extra = [g for g in got if g not in want_rev and g[1][0] != 'blocked-by']
     ctx.ob('C02.R3.no-extra-revocation', 'do_move', not extra, 'no other revocation of castling rights exists (%s)' % extra, site=do.loc())
     tabs = {'engine::KING_SIDE_ROOK_SQUARE': [sq['SQ_H1'], sq['SQ_H8']], 'engine::QUEEN_SIDE_ROOK_SQUARE': [sq['SQ_A1'], sq['SQ_A8']],
             'engine::CASTLING_RIGHTS': [cas['W_CASTLING'], cas['B_CASTLING']]}
@@ -258,6 +263,16 @@ def check(ctx):
         ctx.ob('C02.R5.effect', name, ok,
                'board effect of a %s move is %s' % (name, want_ev), site=do.loc(),
                detail={'found': [list(e) for e in (next(iter(got_ev)) if got_ev else [])]})
+    # R6: the en-passant arm is taken only by a pawn landing on the e.p. square
+    eparm = [n for n, cfid, nm in do.calls() if nm == POS + '::remove_piece' and
+             re.match(r'^\(to\(move\)\+\(\(side==WHITE\)\?-\(?8\)?:8\)\)$', canon(do, kids(n)[1], keep=('side',)).replace(' ', ''))]
+    okg = bool(eparm)
+    for n in eparm:
+        gf = dict((canon(do, c_, keep=('side',)).replace(' ', ''), t_) for c_, t_ in guard_facts(do, n))
+        okg = okg and gf.get('(get_piece_kind(_board[from(move)])==PAWN)') is True and \
+            (gf.get('(to(move)==_enpassant_square)') is True or gf.get('(_enpassant_square==to(move))') is True)
+    ctx.ob('C02.R6.ep-guard', 'do_move', okg,
+           'the pawn behind the target is removed only when a pawn moves onto the current e.p. square', site=do.loc(eparm[0]) if eparm else do.loc())
     ctx.ob('C02.R5.classes', 'do_move', set(dmap) == set(spec), 'do_move has exactly the seven path classes of the rules (%s)' % sorted(map(str, dmap)), site=do.loc())
     # replay funnels through parse_uci + do_move
     for hname in ('engine::Uci::position_command', 'engine::Uci::moves_command'):
@@ -321,8 +336,18 @@ def _mask_class(mask):
 
 def _guard_class(gf):
     true = [k.replace(' ', '') for k, t in gf if t]
+    false = [k.replace(' ', '') for k, t in gf if not t]
     if '(castling(move)!=NO_CASTLING)' in true:
         return ('castling-move',)
+    # a revocation must fire whenever its own condition holds: the only negative preconditions allowed are the
+    # structural ones (not a castling move, not an en-passant capture)
+    for k in false:
+        if k in ('0', '1', 'false', 'true'):
+            continue          # `do { } while (false)` of a disabled ASSERT
+        if k in ('(castling(move)!=NO_CASTLING)',) or ('_enpassant_square' in k) or \
+                (re.match(r'^\(get_piece_kind\(_board\[from\(move\)\]\)==PAWN\)$', k)):
+            continue
+        return ('blocked-by', k)
     kind = who = sqt = None
     for k in true:
         m = re.match(r'^\((get_piece_kind|make_piece_kind)\(_board\[(from|to)\(move\)\]\)==(KING|ROOK)\)$', k)
